@@ -189,15 +189,17 @@ class Recorder:
                 rec["cen"] = int(c is not None and np.allclose(c, m, rtol=1e-12, atol=1e-12 * scale))
         return rec
 
-    @staticmethod
-    def _digest(gens) -> str:
+    def _digest(self, gens) -> str:
+        """digest of genomes and canonical goodness values (f minimising, -f maximising: negation is exact),
+        so that a maximisation run and its mirrored minimisation twin have equal digests"""
         h = hashlib.sha1()
+        sign = -1.0 if self.maximize else 1.0
         for g in gens:
             h.update(b"|")
             for i in g:
                 h.update(_key(i.genome))
                 f = i.fitness
-                h.update(np.float64(np.nan if f is None else f).tobytes())
+                h.update((np.float64(np.nan if f is None else f) * sign + 0.0).tobytes())
         return h.hexdigest()[:12]
 
     def emit(self, ev: dict) -> None:
